@@ -36,6 +36,13 @@ type step struct {
 	CrashK     int
 	DryRun     bool
 	Files      []tfile
+	// round 4 (storage contract): run through the sqlitefault:// scheme of the verif build
+	UseFault bool   // log the statements that reach the driver (VERIF_SQL_LOG)
+	Fault    string // "r@n" / "w@n": the n-th read / write of atlas_schema_revisions fails with "database is locked"
+	// what the step is for the model: a storage fault leaves the state a crash right before the next
+	// revision write leaves (filled in after the run from the driver log)
+	ModelCrash string
+	ModelK     int
 }
 
 type obs struct {
@@ -48,6 +55,8 @@ type obs struct {
 	HotJournal int64  // size of the rollback journal the process left behind (before anyone reopened the file)
 	DBSize     int64  // size of the database file at that moment
 	Extra      string // result of the scenario's probe queries, read after the journal/revisions
+	SQL        []string // UseFault: kinds of the statements that reached the driver: r / w (revisions table), x (journal); "!" = injected failure
+	ExitModel  string   // exit class printed for the model comparison if it differs from Exit (storage fault = "crash")
 }
 
 func (f tfile) name() string { return f.Ver + "_f.sql" }
@@ -76,11 +85,14 @@ func (f tfile) content() string {
 }
 
 func (s step) tokens() []string {
-	cp := s.CrashPoint
+	cp, ck := s.CrashPoint, s.CrashK
+	if s.ModelCrash != "" {
+		cp, ck = s.ModelCrash, s.ModelK
+	}
 	if cp == "" {
 		cp = "-"
 	}
-	toks := []string{s.Mode, fmt.Sprint(s.N), cp, fmt.Sprint(s.CrashK), fmt.Sprint(len(s.Files))}
+	toks := []string{s.Mode, fmt.Sprint(s.N), cp, fmt.Sprint(ck), fmt.Sprint(len(s.Files))}
 	fs := append([]tfile{}, s.Files...)
 	sort.Slice(fs, func(i, j int) bool { return fs[i].name() < fs[j].name() })
 	for _, f := range fs {
@@ -118,10 +130,14 @@ func (o obs) String(withPoints bool) string {
 		js[i] = fmt.Sprint(j)
 	}
 	pts := ""
-	if withPoints {
+	ex := o.Exit
+	if o.ExitModel != "" {
+		ex = o.ExitModel
+	}
+	if withPoints && ex != "crash" {
 		pts = strings.Join(o.Points, ",")
 	}
-	return fmt.Sprintf("exit=%s journal=[%s] revs=[%s] points=[%s]", o.Exit, strings.Join(js, ","), strings.Join(o.Revs, " "), pts)
+	return fmt.Sprintf("exit=%s journal=[%s] revs=[%s] points=[%s]", ex, strings.Join(js, ","), strings.Join(o.Revs, " "), pts)
 }
 
 // readState reads the journal and the revision table with the independent client.
@@ -183,13 +199,29 @@ func runScenarioX(steps []step, setup []string, probe []string) ([]obs, error) {
 		if s.N > 0 {
 			args = append(args, fmt.Sprint(s.N))
 		}
-		args = append(args, "--dir", "file://"+mdir, "--url", "sqlite://"+db, "--tx-mode", s.Mode, "--allow-dirty")
+		scheme := "sqlite://"
+		sqllog := filepath.Join(tmp, "sql.log")
+		if s.UseFault {
+			scheme = "sqlitefault://"
+			os.Remove(sqllog)
+		}
+		args = append(args, "--dir", "file://"+mdir, "--url", scheme+db, "--tx-mode", s.Mode, "--allow-dirty")
 		if s.DryRun {
 			args = append(args, "--dry-run")
 		}
 		var env []string
 		if s.CrashPoint != "" {
 			env = append(env, fmt.Sprintf("VERIF_CRASH_AT=%s:%d", s.CrashPoint, s.CrashK))
+		}
+		if s.UseFault {
+			env = append(env, "VERIF_SQL_LOG="+sqllog)
+			if s.Fault != "" {
+				re := "^SELECT .* FROM .atlas_schema_revisions."
+				if s.Fault[0] == 'w' {
+					re = "^INSERT INTO .atlas_schema_revisions."
+				}
+				env = append(env, "VERIF_SQL_FAULT="+re+s.Fault[1:])
+			}
 		}
 		r := clirun.Run(tmp, env, args...)
 		o := obs{Stderr: r.Stderr}
@@ -200,6 +232,30 @@ func runScenarioX(steps []step, setup []string, probe []string) ([]obs, error) {
 			o.Exit = "crash"
 		default:
 			o.Exit = "fail"
+		}
+		if s.UseFault {
+			b, _ := os.ReadFile(sqllog)
+			for _, l := range strings.Split(string(b), "\n") {
+				if len(l) < 6 {
+					continue
+				}
+				tag, q := strings.TrimSpace(l[:5]), l[5:]
+				kind := ""
+				switch {
+				case strings.HasPrefix(q, "SELECT ") && strings.Contains(q, "FROM `atlas_schema_revisions`"):
+					kind = "r"
+				case strings.HasPrefix(q, "INSERT INTO `atlas_schema_revisions`"):
+					kind = "w"
+				case strings.HasPrefix(q, "INSERT INTO journal"), strings.HasPrefix(q, "INSERT INTO missing"):
+					kind = "x"
+				default:
+					continue
+				}
+				if tag == "FAIL" {
+					kind += "!"
+				}
+				o.SQL = append(o.SQL, kind)
+			}
 		}
 		if o.Exit != "crash" {
 			o.Points = r.Points
@@ -267,6 +323,7 @@ type job struct {
 	id    string
 	steps []step
 	post  func(id string, steps []step, res []obs)
+	pre   func(steps []step, res []obs) // before the case is recorded (fills the model view of fault steps)
 	setup []string // extra setup statements / probe queries (runScenarioX)
 	probe []string
 }
@@ -312,6 +369,9 @@ func main() {
 			if err != nil {
 				w.Violation(j.id, "harness", err.Error())
 				return
+			}
+			if j.pre != nil {
+				j.pre(j.steps, res)
 			}
 			record(w, j.id, j.steps, res)
 			j.post(j.id, j.steps, res)
@@ -411,7 +471,7 @@ func genC10(w *out.W, tier string, mu *sync.Mutex) []job {
 				if res[0].Exit == "crash" {
 					w.NonTrivial(fmt.Sprintf("%s|%s|%s|%d", label, m, p, k))
 				}
-				oracleC10(w, id, label, files, m, p, k, res)
+				oracleC10(w, id, label, files, m, p, k, res, inFlight(ref[0].Points, p, k))
 			}})
 		}
 	}
@@ -429,6 +489,7 @@ func genC10(w *out.W, tier string, mu *sync.Mutex) []job {
 	big := genC10Big(w, tier)
 	w.Rule += fmt.Sprintf(". Plus %d large-transaction crash scenarios (oracle on the engine side; the journal/revision observations are also compared with the model): a file of 150 statements, alone or after a one-statement file, tx-mode {file, all}, where every statement also writes a 40 kB row into a table that existed before and updates one of 400 pre-existing 3 kB rows (a different one per statement, so committed pages are modified, go cold and are spilled) through a trigger (6 MB in one transaction, beyond SQLite's page cache), killed after half / all of its statements, before its last statement, after its last revision write, before its commit and (control) after its commit; counted as reaching the class only if the killed process left a non-empty rollback journal and a database file > 1 MB, i.e. uncommitted pages had been spilled into the database file", len(big))
 	jobs = append(jobs, big...)
+	jobs = append(jobs, genC10Store(w, tier, mu)...)
 	return jobs
 }
 
@@ -466,7 +527,21 @@ func countOf(l []int, x int) int {
 	return n
 }
 
-func oracleC10(w *out.W, id string, label string, files []tfile, mode, point string, k int, res []obs) {
+// inFlight: is a statement in flight at the k-th occurrence of point p of the uncrashed run,
+// i.e. executed but its progress not yet stored? Exactly between after-exec and the write that follows.
+func inFlight(refPoints []string, p string, k int) bool {
+	n := 0
+	for i, q := range refPoints {
+		if q == p {
+			if n++; n == k {
+				return p == "after-exec" || (p == "before-write" && i > 0 && refPoints[i-1] == "after-exec")
+			}
+		}
+	}
+	return false
+}
+
+func oracleC10(w *out.W, id string, label string, files []tfile, mode, point string, k int, res []obs, inflight bool) {
 	desc := fmt.Sprintf("%s mode=%s crash=%s:%d after-crash{journal=%v revs=%v} after-rerun{exit=%s journal=%v revs=%v}", label, mode, point, k, res[0].Journal, res[0].Revs, res[1].Exit, res[1].Journal, res[1].Revs)
 	if res[0].Exit != "crash" {
 		w.Violation(id, "no-crash", "the crash point was not reached: "+desc)
@@ -553,6 +628,10 @@ func oracleC10(w *out.W, id string, label string, files []tfile, mode, point str
 	}
 	if dups > 1 {
 		w.Violation(id, "too-many-repeats", "more than the one statement in flight ran twice: "+desc)
+		return
+	}
+	if dups > 0 && !inflight {
+		w.Violation(id, "repeat-without-in-flight", "no statement was in flight at the crash point (its progress write had completed, or it had not started), yet a statement ran twice: "+desc)
 		return
 	}
 	// order preserved (ignoring the duplicate)
